@@ -161,7 +161,7 @@ def execute(sc) -> Result:
     sc = copy.deepcopy(sc)
     plan = sc.pop("plan")
     base, rec, run = run_one(res, sc)
-    res.history_key = repr((sorted(plan["subset"]), plan["shift"])) + "|" + abstract_history(run)
+    res.history_key = repr((sorted(plan["subset"]), plan["shift"])) + "|" + abstract_history(run, sc)
     if base is None:
         return res
     for key in sorted(base):
